@@ -196,9 +196,11 @@ Definition edit (s : state) (a : addr) (c : cid) (t : tid) (name uri uri_hash da
     end
   else None.
 
-(** MsgTransferNFT.ValidateBasic (no URI length check) + msgServer.TransferNFT + TransferOwnership *)
+(** MsgTransferNFT.ValidateBasic (with the URI length check added by
+    "fix: nft MsgTransferNFT validates the token URI length": before it a transfer could store an
+    over-long URI, which genesis validation rejects) + msgServer.TransferNFT + TransferOwnership *)
 Definition transfer (s : state) (a : addr) (c : cid) (t : tid) (name uri uri_hash data : Z) (r : addr) : option state :=
-  if denom_ok c && addr_ok a && addr_ok r && json_or_empty_or_dnm data && token_ok t then
+  if denom_ok c && addr_ok a && addr_ok r && uri_ok uri && json_or_empty_or_dnm data && token_ok t then
     match get (c, t) (nfts s) with
     | None => None
     | Some m =>
